@@ -174,6 +174,9 @@ Proof.
   destruct (cstep seq c e); [apply IH|reflexivity].
 Qed.
 
+Lemma crun_app_intro seq c a b c1 c2 : crun seq c a = Some c1 -> crun seq c1 b = Some c2 -> crun seq c (a ++ b) = Some c2.
+Proof. intros A B. rewrite crun_app, A. exact B. Qed.
+
 Definition WFc (c : cstate) : Prop := nodupk (c_feats c) /\ nodupk (c_rules c) /\ nodupk (c_atts c).
 
 Lemma cstep_WFc seq c e c' : cstep seq c e = Some c' -> WFc c -> WFc c'.
@@ -319,4 +322,103 @@ Proof.
       * intros k' H. apply LO1. apply H. left. reflexivity.
       * intros k2 es2 H2 NI2. exfalso. apply NI2. cbn [keys map fst]. destruct H2 as [H2|H2]; [inversion H2; left; reflexivity|].
         right. exact (in_keys _ _ _ H2).
+Qed.
+
+(* ---- level C: one rule ---- *)
+Lemma atts_inv_ext c c' f ro l : c_atts c' = c_atts c -> atts_inv c f ro l -> atts_inv c' f ro l.
+Proof.
+  intros E [ND SH TL FR HD OP PV]. constructor; auto.
+  - intros k es H SS. rewrite E. exact (FR k es H SS).
+  - destruct l as [|[k es] t]; [exact I|]. intros SS. rewrite E. exact (HD SS).
+  - intros k'. rewrite E. exact (OP k').
+  - intros pre k es post EQ. specialize (PV pre k es post EQ). destruct (prev_key f ro k); [|exact I]. rewrite E. exact PV.
+Qed.
+
+Definition same_but_atts_rules (c c' : cstate) : Prop :=
+  c_feats c' = c_feats c /\ c_finished c' = c_finished c /\ c_started c' = c_started c /\ c_pf c' = c_pf c.
+
+Lemma cstep_ruleS_seq c f r : c_finished c = false -> lookup N.eqb f (c_feats c) = Some Open ->
+  lookup rkey_eqb (f, r) (c_rules c) = None -> open_rules_of f c = false ->
+  open_atts_where (fun k => att_feat k =? f) c = false ->
+  cstep true c (EvRuleS f r) = Some (set_crules c (setk rkey_eqb (f, r) Open (c_rules c))).
+Proof. intros F S L O1 O2. unfold cstep. rewrite F, S, L, O1, O2. reflexivity. Qed.
+Lemma cstep_ruleF_seq c f r : c_finished c = false -> lookup rkey_eqb (f, r) (c_rules c) = Some Open ->
+  open_atts_where (fun k => (att_feat k =? f) && option_eqb N.eqb (att_rule k) (Some r)) c = false ->
+  cstep true c (EvRuleF f r) = Some (set_crules c (setk rkey_eqb (f, r) Closed (c_rules c))).
+Proof. intros F S L. unfold cstep. rewrite F, S, L. reflexivity. Qed.
+
+Lemma seq_rule f r rq c :
+  c_finished c = false -> WFc c -> lookup N.eqb f (c_feats c) = Some Open ->
+  rule_wf rq = true -> atts_inv c f (Some r) (rq_atts rq) ->
+  match rq_init rq with
+  | Some _ => lookup rkey_eqb (f, r) (c_rules c) = None /\ open_rules_of f c = false /\
+              (forall k', lookup atkey_eqb k' (c_atts c) <> Some Open)
+  | None => lookup rkey_eqb (f, r) (c_rules c) = Some Open
+  end ->
+  exists c', crun true c (map snd (fst (fst (emit_rule f r rq)))) = Some c' /\ same_but_atts_rules c c' /\ WFc c' /\
+    (forall k, k <> (f, r) -> lookup rkey_eqb k (c_rules c') = lookup rkey_eqb k (c_rules c)) /\
+    (forall k', (forall k, In k (keys (rq_atts rq)) -> k' <> att_key f (Some r) k) ->
+                lookup atkey_eqb k' (c_atts c') = lookup atkey_eqb k' (c_atts c)) /\
+    (if snd (emit_rule f r rq)
+     then lookup rkey_eqb (f, r) (c_rules c') = Some Closed /\ (forall k', lookup atkey_eqb k' (c_atts c') <> Some Open) /\
+          (forall k es, In (k, es) (rq_atts rq) -> lookup atkey_eqb (att_key f (Some r) k) (c_atts c') = Some Closed)
+     else lookup rkey_eqb (f, r) (c_rules c') = Some Open /\
+          atts_inv c' f (Some r) (rq_atts (snd (fst (emit_rule f r rq)))) /\ rq_init (snd (fst (emit_rule f r rq))) = None /\
+          rq_state (snd (fst (emit_rule f r rq))) = rq_state rq).
+Proof.
+  intros CF W FO RW INV ST. unfold emit_rule.
+  (* Rule::Started, if not yet emitted *)
+  assert (S1 : exists c1, crun true c (map snd (init_evs (rq_init rq) (EvRuleS f r))) = Some c1 /\
+                c_feats c1 = c_feats c /\ c_atts c1 = c_atts c /\ c_finished c1 = false /\ c_started c1 = c_started c /\ c_pf c1 = c_pf c /\
+                WFc c1 /\ lookup rkey_eqb (f, r) (c_rules c1) = Some Open /\
+                (forall k, k <> (f, r) -> lookup rkey_eqb k (c_rules c1) = lookup rkey_eqb k (c_rules c))).
+  { destruct (rq_init rq) as [m0|].
+    - destruct ST as (AB & NR & NOA). cbn [init_evs map snd crun].
+      assert (NA : open_atts_where (fun k => att_feat k =? f) c = false).
+      { destruct W as (_ & _ & W3). apply open_atts_none_any. apply open_atts_all_false; assumption. }
+      rewrite (cstep_ruleS_seq c f r CF FO AB NR NA). eexists. split; [reflexivity|].
+      cbn [set_crules c_feats c_rules c_atts c_finished c_started c_pf].
+      split; [reflexivity|]. split; [reflexivity|]. split; [exact CF|]. split; [reflexivity|]. split; [reflexivity|].
+      split.
+      { destruct W as (W1 & W2 & W3). split; [exact W1|]. split; [|exact W3]. cbn [set_crules c_rules].
+        apply (nodupk_setk rkey_eqb rkey_eqb_spec). exact W2. }
+      split; [apply (lookup_setk_same rkey_eqb rkey_eqb_spec)|].
+      intros k NE. apply (lookup_setk_other rkey_eqb rkey_eqb_spec). exact NE.
+    - exists c. cbn [init_evs map crun]. split; [reflexivity|]. split; [reflexivity|]. split; [reflexivity|]. split; [exact CF|].
+      split; [reflexivity|]. split; [reflexivity|]. split; [exact W|]. split; [exact ST|]. intros k _. reflexivity. }
+  destruct S1 as (c1 & R0 & E1f & E1a & CF1 & E1s & E1p & W1 & RO1 & LR1).
+  assert (INV1 : atts_inv c1 f (Some r) (rq_atts rq)) by exact (atts_inv_ext c c1 f (Some r) _ E1a INV).
+  assert (PS1 : parents_seq c1 f (Some r)) by (split; [rewrite E1f; exact FO|exact RO1]).
+  destruct (seq_atts f r (rq_atts rq) c1 INV1 W1 CF1 PS1) as (c2 & R2 & SB2 & INV2 & LO2 & LC2).
+  pose proof (crun_WFc _ _ _ _ R2 W1) as W2.
+  destruct SB2 as (E2f & E2r & E2fin & E2s & E2p).
+  unfold rule_wf in RW. apply andb_prop in RW as [AW DONE].
+  pose proof (emit_atts_wf f r (rq_atts rq) AW) as EW.
+  destruct (emit_atts f r (rq_atts rq)) as [o2 atts'] eqn:EA. cbn [fst snd] in *. destruct EW as (_ & _ & ALLDONE).
+  destruct (rq_state rq) as [|m|] eqn:RS; cbn [take_fin fst snd].
+  - (* not finished: the rule stays *)
+    exists c2. split; [rewrite map_app; eapply crun_app_intro; [exact R0|exact R2]|]. split; [repeat split; congruence|]. split; [exact W2|].
+    split; [intros k NE; rewrite E2r; exact (LR1 k NE)|]. split; [intros k' H; rewrite (LO2 k' H), E1a; reflexivity|].
+    split; [rewrite E2r; exact RO1|]. cbn [rq_atts rq_init rq_state]. auto.
+  - (* finished: every attempt has been emitted, Rule::Finished follows *)
+    cbn [fin_pending negb orb] in DONE. rewrite (ALLDONE DONE) in *.
+    assert (NOA : forall k', lookup atkey_eqb k' (c_atts c2) <> Some Open).
+    { intros k' L. exact (ai_open c2 f (Some r) [] INV2 k' L). }
+    set (c3 := set_crules c2 (setk rkey_eqb (f, r) Closed (c_rules c2))).
+    exists c3. split.
+    { rewrite !map_app. eapply crun_app_intro; [exact R0|]. eapply crun_app_intro; [exact R2|].
+      cbn [map snd crun]. rewrite (cstep_ruleF_seq c2 f r); [reflexivity|congruence|rewrite E2r; exact RO1|].
+      destruct W2 as (_ & _ & W23). apply open_atts_none_any. apply open_atts_all_false; assumption. }
+    split; [repeat split; cbn [c3 set_crules c_feats c_finished c_started c_pf]; congruence|]. split.
+    { destruct W2 as (A & B & C). split; [exact A|]. split; [|exact C]. cbn [c3 set_crules c_rules].
+      apply (nodupk_setk rkey_eqb rkey_eqb_spec). exact B. }
+    split.
+    { intros k NE. cbn [c3 set_crules c_rules]. rewrite (lookup_setk_other rkey_eqb rkey_eqb_spec) by exact NE.
+      rewrite E2r. exact (LR1 k NE). }
+    split; [intros k' H; cbn [c3 set_crules c_atts]; rewrite (LO2 k' H), E1a; reflexivity|].
+    split; [cbn [c3 set_crules c_rules]; apply (lookup_setk_same rkey_eqb rkey_eqb_spec)|].
+    split; [exact NOA|]. intros k es H. cbn [c3 set_crules c_atts]. apply (LC2 k es H). intros [].
+  - exists c2. split; [rewrite map_app; eapply crun_app_intro; [exact R0|exact R2]|]. split; [repeat split; congruence|]. split; [exact W2|].
+    split; [intros k NE; rewrite E2r; exact (LR1 k NE)|]. split; [intros k' H; rewrite (LO2 k' H), E1a; reflexivity|].
+    split; [rewrite E2r; exact RO1|]. cbn [rq_atts rq_init rq_state]. auto.
 Qed.
